@@ -355,7 +355,13 @@ def global_values_signatures(db, lay):
             if m.has_mir and not m.compact:
                 for k, v in common.struct_signatures(db, m, {'Layout': lself}).items():
                     if k.startswith('GlobalValues.'):
-                        d[f'{meth}/{k}'] = v
+                        # which inputs the field is computed from; for a field built from constants only, which
+                        # constants. Operations and constants inside the callees that compute products / ratios are
+                        # not part of the signature (refactoring those callees must not matter here).
+                        # parameter + its first field only: `main_page` versus `main_page.address` is a matter of how the
+                        # callee walks the page, not of which input the field depends on
+                        src = sorted({'.'.join(x.split('.')[:2]) for x in v if x.startswith('a') and x[1:2].isdigit()})
+                        d[f'{meth}/{k}'] = src if src else [x for x in v if x.startswith('val:')]
         out[lname] = d
     return out
 
